@@ -21,6 +21,7 @@ struct Dev {
     alter: Option<(usize, u16)>,            // this datagram gets this counter
     drop_from: Option<usize>,               // the device is gone from this datagram on
     obj: Vec<u8>,
+    al_follow: bool,                        // AL status follows AL control (entry point 14)
 }
 
 impl Dev {
@@ -28,6 +29,7 @@ impl Dev {
         vharness::clock::advance(10);
         let mut r = f.to_vec();
         r[6] |= 2;
+        if self.al_follow { vharness::clock::advance(100); }   // the state wait of entry point 14 ends by its timeout
         let mut pos = 16;
         loop {
             let lf = u16::from_le_bytes([f[pos + 6], f[pos + 7]]);
@@ -67,6 +69,7 @@ impl Dev {
                             self.out.push_back(rep);
                         } else {
                             self.mem[a..a + len].copy_from_slice(&data);
+                            if ado == 0x0120 && self.al_follow { self.mem[0x0130] = data[0] & 0x0f; self.mem[0x0131] = 0; }
                             if ado == 0x0502 && len >= 6 && data[1] & 1 != 0 {
                                 let w = u16::from_le_bytes([data[2], data[3]]) as usize * 2;
                                 for i in 0..8 { self.mem[0x0508 + i] = *self.eeprom.get(w + i).unwrap_or(&0xff); }
@@ -92,18 +95,18 @@ impl Dev {
 fn case(rng: &mut Rng, release: bool) -> String {
     vharness::clock::reset();
     let (mut tx, mut rx, pl) = net::storage::<4, 128>();
-    let timeouts = Timeouts { mailbox_response: Duration::from_millis(1), mailbox_echo: Duration::from_millis(1), eeprom: Duration::from_millis(1), wait_loop_delay: Duration::from_millis(0), ..Timeouts::default() };
+    let timeouts = Timeouts { state_transition: Duration::from_millis(2), mailbox_response: Duration::from_millis(1), mailbox_echo: Duration::from_millis(1), eeprom: Duration::from_millis(1), wait_loop_delay: Duration::from_millis(0), ..Timeouts::default() };
     let md: &'static MainDevice<'static> = Box::leak(Box::new(MainDevice::new(pl, timeouts, MainDeviceConfig::default())));
     md.verif_set_network(1, 0);
     let sd0 = verif::subdevice_with_mailbox(0x1000, (WR, MLEN), (RD, MLEN), false);
     let group: SubDeviceGroup<1, 8, ethercrab::DefaultLock, Op, NoDc> = SubDeviceGroup::verif_new([sd0].into_iter(), 0, 0, 0);
     let mut mem = rng.bytes(0x2000);
     mem[0x0502] = 0; mem[0x0503] = 0;       // SII: not busy, no errors, 4 byte reads
-    let op = rng.below(14);
+    let op = rng.below(15);
     let reg: u16 = 0x0100 + 4 * rng.below(0x100) as u16;
     let expected = rng.below(4) as u16;
     let nobj = rng.range(1, 4) as usize;
-    let mut dev = Dev { mem, eeprom: rng.bytes(256), out: VecDeque::new(), dgrams: vec![], alter: None, drop_from: None, obj: rng.bytes(nobj) };
+    let mut dev = Dev { mem, eeprom: rng.bytes(256), out: VecDeque::new(), dgrams: vec![], alter: None, drop_from: None, obj: rng.bytes(nobj), al_follow: op == 14 };
     // how the device misbehaves
     let fault = rng.below(5);
     let at = rng.below(8) as usize;
@@ -139,7 +142,9 @@ fn case(rng: &mut Rng, release: bool) -> String {
                 10 => { let (s, c) = sd.status().await?; out.push(u8::from(s) as i64); out.push(u16::from(c) as i64); }
                 11 => { let mut buf = vec![0u8; nraw]; let k = sd.eeprom_read_raw(md, word, &mut buf).await?; out.push(k as i64); out.extend(buf[..k].iter().map(|b| *b as i64)); }
                 12 => match nobj { 1 => out.push(sd.sdo_read::<u8>(0x2000, 1).await? as i64), 2 => out.push(sd.sdo_read::<u16>(0x2000, 1).await? as i64), _ => out.extend(sd.sdo_read::<[u8; 3]>(0x2000, 1).await?.iter().map(|b| *b as i64)) },
-                _ => sd.sdo_write(0x2000, 1, val as u16).await?,
+                13 => sd.sdo_write(0x2000, 1, val as u16).await?,
+                // the state request of a group transition (request_subdevice_state_nowait): the AL control write is checked
+                _ => { let g2: SubDeviceGroup<1, 8, ethercrab::DefaultLock, Op, NoDc> = SubDeviceGroup::verif_new([verif::subdevice_with_mailbox(0x1000, (WR, MLEN), (RD, MLEN), false)].into_iter(), 0, 0, 0); g2.into_safe_op(md).await?; }
             }
             Ok::<(), Error>(())
         }, &mut tx, &mut rx, &mut wire, &mut log, 3000)))
